@@ -17,10 +17,12 @@ class TLCError(Exception):
     pass
 
 
-def run_tlc(module, cfg, env=None, workers=16, timeout=900, extra=(), deadlock_flag=True, heap="8g"):
+def run_tlc(module, cfg, env=None, workers=16, timeout=900, extra=(), deadlock_flag=True, heap="4g"):
     """returns dict(out=stdout text, states=generated, distinct=.., wall=..)"""
     meta = tempfile.mkdtemp(prefix="tlcmeta_")
-    cmd = ["java", "-XX:+UseParallelGC", f"-Xmx{heap}", "-cp", JAR, "tlc2.TLC",
+    # a bounded heap and few GC threads: with the JVM's default (a quarter of the RAM) TLC spent
+    # most of its time in the kernel zeroing fresh pages (27 s vs 5 s on the same model)
+    cmd = ["java", "-XX:+UseParallelGC", "-XX:ParallelGCThreads=4", f"-Xmx{heap}", "-cp", JAR, "tlc2.TLC",
            "-workers", str(workers), "-metadir", meta, "-noGenerateSpecTE",
            "-config", cfg]
     if deadlock_flag:
